@@ -25,9 +25,9 @@ Print Assumptions C13_vsm_v0_refuted.
 (** every history respecting the caller contract (submit only payloads that are not connected) runs without a
     failing assertion; every known payload is connected XOR in flight *)
 Theorem C13_partition :
-  forall (ht par : N -> N) ops,
-    contract ht par pempty ops ->
-    exists s, prun ht par pempty ops = POk s /\
+  forall (ht par blk : N -> N) ops,
+    contract ht par blk pempty ops ->
+    exists s, prun ht par blk pempty ops = POk s /\
       NoDup (conn s) /\
       (forall p, ~ (connected s p = true /\ inflight s p = true)) /\
       (forall p, known s p = true <-> (connected s p = true \/ inflight s p = true)).
@@ -36,9 +36,9 @@ Print Assumptions C13_partition.
 
 (** the height-sorted in-flight view holds exactly the in-flight payloads, once each, sorted by height *)
 Theorem C13_views_agree :
-  forall (ht par : N -> N) ops,
-    contract ht par pempty ops ->
-    exists s, prun ht par pempty ops = POk s /\
+  forall (ht par blk : N -> N) ops,
+    contract ht par blk pempty ops ->
+    exists s, prun ht par blk pempty ops = POk s /\
       Permutation (vset (infl s)) (map fst (vmap (infl s))) /\
       sorted ht (vset (infl s)) = true /\
       NoDup (vset (infl s)) /\
@@ -48,31 +48,32 @@ Print Assumptions C13_views_agree.
 
 (** no operation other than a submit of p makes an unknown payload p known *)
 Theorem C13_removed_stay_removed :
-  forall (ht par : N -> N) s o s' p,
+  forall (ht par blk : N -> N) s o s' p,
     PInv ht s ->
     (match o with Submit _ _ q => connected s q = false | _ => True end) ->
-    ~ targets o p -> known s p = false -> pstep ht par s o = POk s' -> known s' p = false.
+    ~ targets o p -> known s p = false -> pstep ht par blk s o = POk s' -> known s' p = false.
 Proof. exact removed_stay_removed_lemma. Qed.
 Print Assumptions C13_removed_stay_removed.
 
 (** never lost: an accepted submit makes the payload known and a connect pass keeps every known payload known *)
 Theorem C13_never_lost :
-  forall (ht par : N -> N),
+  forall (ht par blk : N -> N),
     (forall base v p s s', PInv ht s -> connected s p = false -> v <> Stateless ->
-       submit ht par base v p s = POk s' -> known s' p = true) /\
-    (forall base stale s s', PInv ht s -> tryConnect ht par base stale s = POk s' ->
+       submit ht par blk base v p s = POk s' -> known s' p = true) /\
+    (forall base stale s s', PInv ht s -> tryConnect ht par blk base stale s = POk s' ->
        forall q, known s q = true -> known s' q = true).
 Proof. exact never_lost_lemma. Qed.
 Print Assumptions C13_never_lost.
 
-(** one tryConnectPayloads pass: whatever is still in flight afterwards either fails the contextual check or its
+(** [blk p] is the VBK block a payload carries, [par p] the parent of that block, [hb] the height of blocks.
+    One tryConnectPayloads pass: whatever is still in flight afterwards either fails the contextual check or its
     context block is absent (not in the trees, not among the connected payloads) - for every submission order *)
 Theorem C13_inflight_eventually_connected :
-  forall (ht par : N -> N) base stale s s',
-    (forall q, ht (par q) < ht q) ->
-    PInv ht s -> tryConnect ht par base stale s = POk s' ->
+  forall (ht par blk hb : N -> N) base stale s s',
+    (forall q, hb (blk q) = ht q) -> (forall q, hb (par q) < ht q) ->
+    PInv ht s -> tryConnect ht par blk base stale s = POk s' ->
     forall p, inflight s' p = true -> mem p stale = false ->
-      present base (conn s') (par p) = false.
+      present blk base (conn s') (par p) = false.
 Proof. exact inflight_eventually_connected_lemma. Qed.
 Print Assumptions C13_inflight_eventually_connected.
 
